@@ -1,10 +1,13 @@
 (* C06 - Momentum, oscillator and volume indicators match their definitions.
    Proved (recurrence specifications): RSI's value and range incl. the no-losses case, the
-   invariants of Wilder's averages, OBV's step law.  The other indicators are decided by
-   the bit-exact engine correspondence and the reference falsifier. *)
+   invariants of Wilder's averages, OBV's step law, VWAP = cumulative volume-weighted typical
+   price over the whole stream, ROC = percentage change against the input `period` steps
+   back.  The other indicators are decided by the bit-exact engine correspondence and the
+   reference falsifier. *)
 From Coq Require Import ZArith List String Bool Reals.
 From Hexital Require Import Base.Prelude Base.Num Model.Candle Inst.RealInst Spec.Steppers
-  Proofs.SpecGeneric Proofs.SpecReal.
+  Proofs.SpecGeneric Proofs.SpecReal Proofs.SpecMore.
+Import ListNotations.
 Local Open Scope R_scope.
 
 Theorem C06_rsi_value_in_range :
@@ -32,3 +35,25 @@ Theorem C06_obv_step_law :
   (neqb O (x_c O c) pc = false /\ nltb O pc (x_c O c) = false /\ v = VNum (rnd O nd (nsub O pr (x_v O c)))).
 Proof. exact obv_step_law. Qed.
 Print Assumptions C06_obv_step_law.
+
+(* VWAP over a whole stream: reading j is the rounded ratio of the cumulative sums of
+   volume * typical price and of volume over candles 0..j (the plain cumulative sum while
+   the cumulative volume is zero - the convention chosen for C09) *)
+Theorem C06_vwap_is_cumulative :
+  forall (nd : Z) (cs : list (inp ROps)),
+  exists vs, series ROps S_VWAP nd cs = Ok vs /\
+    Forall2 (fun (v : val ROps) pre => exists r : R, v = @VNum ROps r /\
+               (sum_v pre <> 0 -> r = rnd10 nd (sum_pv pre / sum_v pre)) /\ (sum_v pre = 0 -> r = rnd10 nd (sum_pv pre)))
+            vs (map (fun j => rev (firstn (S j) cs) ++ []) (seq 0 (List.length cs))).
+Proof.
+  intros nd cs. unfold series. apply vwap_is_cumulative. left. repeat split.
+Qed.
+Print Assumptions C06_vwap_is_cumulative.
+
+Theorem C06_roc_definition :
+  forall (p nd : Z) (s : state ROps) (x nb : R),
+  (0 <= p)%Z -> full ROps (p + 1) (push ROps (p + 1) x (s_buf ROps s)) = true ->
+  nth_error (push ROps (p + 1) x (s_buf ROps s)) (Z.to_nat p) = Some nb -> nb <> 0 ->
+  exists s', roc_step ROps p nd s x = Ok (@VNum ROps (rnd10 nd ((x - nb) / nb * 100)), s').
+Proof. exact roc_definition. Qed.
+Print Assumptions C06_roc_definition.
